@@ -992,3 +992,16 @@ def _m76():
     from bfg9000.backends.ninja import writer as nw
     _patch_source(nw, 'write', "buildfile.variable(buildfile.path_vars[path.Root.srcdir], env.srcdir,\n                       Section.path)",
                   "buildfile.variable(buildfile.path_vars[path.Root.srcdir], env.srcdir)")
+
+
+@mutant('make_function_no_comma_escape')
+def _m77():
+    # function syntax no longer doubles '$' (so a name with '$' is expanded inside $(call ...))
+    from bfg9000.backends.make import syntax
+    orig = syntax.Writer.escape_str.__func__
+
+    def escape_str(cls, string, syn):
+        if syn == syntax.Syntax.function:
+            return string.replace(',', '$,')
+        return orig(cls, string, syn)
+    syntax.Writer.escape_str = classmethod(escape_str)
